@@ -29,6 +29,14 @@ let parse_ints (s : string) : z list =
 
 let show_ints (l : z list) = String.concat " " (List.map (fun z -> string_of_int (int_of_z z)) l)
 
+(* positions the model marks WILD (-999999999999: results of libm / nalgebra float code that it
+   does not predict) match any observation; they are judged by vp_check alone *)
+let wild = z_of_int (-999999999999)
+let rec matches (m : z list) (o : z list) = match m, o with
+  | [], [] -> true
+  | a :: m', b :: o' -> (a = b || a = wild) && matches m' o'
+  | _, _ -> false
+
 let () =
   let n = ref 0 and nontriv = ref 0 and mism = ref 0 and specfail = ref 0 and bad = ref 0 in
   let seen : (int, unit) Hashtbl.t = Hashtbl.create 65536 in
@@ -50,7 +58,7 @@ let () =
           let c = parse_ints cs and o = parse_ints os in
           incr n;
           let m = vp_run c in
-          if m <> o then begin
+          if not (matches m o) then begin
             incr mism;
             if !mism <= maxrep then Printf.printf "MISMATCH %s | %s | %s %s\n" cs os (show_ints m) comment
           end;
